@@ -86,6 +86,23 @@ CONTRACTS = {
         modifies=["self._data"],
         mustfail="result[0] == (key not in self._data)",
     ),
+    C + "InMemoryCache.set": dict(
+        props=["C09"],
+        params={"self": OBJ("InMemoryCache"), "key": STR, "value": ANY},
+        returns=NONE_T,
+        raises={},
+        # whatever is retained is either the entry just written or an entry that was there before, UNCHANGED (eviction removes,
+        # it never rewrites: no key can come to hold another key's value); an unbounded cache retains everything; a bounded
+        # cache that was within its bound stays within it.  WHICH entry is evicted (least recently used) depends on the
+        # insertion order of the OrderedDict, which the encoding does not model: bounded stand-in.
+        ensures=["forall_keys(lambda k: k not in self._data or (self._data[k] is value if k == key else (old(k in self._data) and self._data[k] is old(self._data.get(k)))), self._data)",
+                 "self._max_size is not None or (key in self._data and self._data[key] is value)",
+                 "self._max_size is not None or forall_keys(lambda k: not old(k in self._data) or k in self._data, self._data)",
+                 "self._max_size is None or old(len(self._data)) > self._max_size or len(self._data) <= self._max_size",
+                 "len(self._data) <= old(len(self._data)) + 1"],
+        modifies=["self._data"],
+        mustfail="key in self._data",
+    ),
     K + "check_cache": dict(
         props=["C09"],
         params={"node": OBJ("HyperNode"), "inputs": DICT(STR, ANY), "cache": ANY},
